@@ -179,6 +179,11 @@ def run_check(prop_id, tier):
     else:
         cases = corpus_cases(prop_id) + mod.gen(rng, tier)
         evaluate(mod, cases, scratch, out, findings)
+        extra_ev = {}
+        if hasattr(mod, "extra_phase"):
+            ctx = {"tier": tier, "seed": seed, "rng": rng, "scratch": scratch, "cases": cases, "out": out,
+                   "findings": findings}
+            extra_ev = mod.extra_phase(ctx) or {}
         broken = (not gate["ok"]) or out.corr_breaks
         if broken and not out.violations:
             # correspondence or proof broke: search harder for a failing input of the property itself
@@ -233,6 +238,10 @@ def run_check(prop_id, tier):
         "explanation": getattr(mod, "EXPLANATION", ""),
         "coq_gate_s": gate["wall_s"],
     }
+    try:
+        cov.update(extra_ev)
+    except NameError:
+        pass
     ev = {"property_id": prop_id, "tier": tier if tier in ("quick", "thorough") else "quick", "seed": seed,
           "level": level, "coverage": cov, "assumptions": getattr(mod, "ASSUMPTIONS", []),
           "wall_s": round(time.time() - t0, 2), "violations": len(violations_out)}
